@@ -58,7 +58,7 @@ ASSUMPTIONS = ["items are networkx Graphs (not GML rule strings: the 'mod' backe
                "starting templates are consistent: isomorphic representatives carry the same class",
                "non-empty data lists (iterative_cluster reads rules[0])"]
 TESTED_NOT_PROVED = []
-LEVEL_TEXT = ("Machine-checked proof (Coq, 17 theorems in coq/props/C13.v, all closed under the global context). Generic part, for every list "
+LEVEL_TEXT = ("Machine-checked proof (Coq, 18 theorems in coq/props/C13.v, all closed under the global context). Generic part, for every list "
               "of items and every decidable test `iso` that is an equivalence, with an iso-invariant pre-grouping attribute as the code reads "
               "it: GraphCluster.iterative_cluster / fit (visited set, comparison with the first member only, attribute pre-filter) gives every "
               "item exactly one class and two items share a class IFF iso (C13_partition; clusters list = rule_to_cluster, a partition of the "
